@@ -14,6 +14,22 @@ CHECKS = {
         note="trusted: CPython 3 as reference; the generator's whitelist of shared constructs (documented differences such as list.pop(-1), duplicate dict-literal keys, i32 index parameters are excluded and listed in DESIGN.md)",
         technique="differential transcript oracle vs reference interpreter over generated programs",
         ref="DESIGN.md section 3 C01"),
+    "C03": dict(
+        engine="svh",
+        text="Each generated heap-heavy program (cyclic/aliased containers, closures, records, partials, bound methods, frozen loaded values, embedder-set variables, extra_value, several ASTs on one module) "
+             "runs under GC schedules never / default / every k-th safepoint (hook H1); sharing-sensitive transcripts must equal the no-GC run; every from-space is poisoned and quarantined (hook H2) so a "
+             "missed root crashes or mis-encodes deterministically; ASan build in thorough. Held on the (program, schedule) pairs executed; evidence reports collections performed and bytes poisoned.",
+        note="trusted: hooks H1/H2; collections can only be placed at safepoints the evaluator offers; identity of immutable values is not compared",
+        technique="schedule-variation equivalence monitor + poisoned/quarantined arenas (runtime sanitizer hook) + ASan",
+        ref="DESIGN.md section 3 C03"),
+    "C13": dict(
+        engine="svh",
+        text="Random histories over frozen modules (load chains, re-exports, values inside containers, captured by functions and default arguments), owned handles (get_owned/map/add_to_heap), "
+             "globals built from module values and modules built from globals, unfrozen importing modules, and drops in any order (biased to producer-first, some on other threads); after every operation every "
+             "still-live object is re-observed (functions are called) and compared with its recorded content; every dying arena is poisoned and quarantined (H2); ASan build in thorough.",
+        note="trusted: hook H2; the observation recorded at creation; FrozenModule/OwnedFrozen moved across threads through an unsafe Send wrapper in the harness",
+        technique="conservation monitor over recorded histories + poisoned/quarantined arenas + ASan",
+        ref="DESIGN.md section 3 C13"),
     "C09": dict(
         engine="svh",
         text="The algebraic laws themselves are the oracle: reflexivity, symmetry, transitivity (through equivalence classes, i.e. all triples), "
